@@ -93,8 +93,10 @@ class C18set(vlib.HistoryProp):
                 ops.append("%sC" % pre)
                 if not pre:
                     present.clear()
-            else:
+            elif full or rng.random() < 0.05:
                 ops.append("%sE" % pre)
+            else:
+                ops.append("%sF %d" % (pre, k))     # on-demand mode: enumerations are rare (they cost n^2)
         ops += ["H", "E"] + (["ME"] if mix_map else [])
         return Case(cid, "1" if full else "0", ops, origin)
 
@@ -108,6 +110,32 @@ class C18set(vlib.HistoryProp):
         ops += ["F %d" % k for k in keys]
         ops += ["A %d %d" % (k, 7) for k in gone[:3]] + ["E"]
         return Case(cid, "1", ops, "shrink-after-removes-%d" % nkeys)
+
+    def grow_walk(self, rng, nkeys, cid):
+        """growth through many primes: nkeys distinct insertions with lookups and a few removals in
+        between, enumerate, remove most, shrink, enumerate, look everything up (enumeration on demand)"""
+        keys = rng.sample(range(0, 3 * nkeys), nkeys)
+        ops, live = [], []
+        for i, k in enumerate(keys):
+            ops.append(("A %d %d" if rng.random() < 0.6 else "I %d %d") % (k, i + 1))
+            live.append(k)
+            r = rng.random()
+            if r < 0.25:
+                ops.append("F %d" % rng.choice(keys[:i + 1]))
+            elif r < 0.30:
+                j = rng.randrange(len(live))
+                ops.append("R %d" % live[j])
+                live[j] = live[-1]
+                live.pop()
+            elif r < 0.31:
+                ops.append("S")
+        ops.append("E")
+        gone = rng.sample(live, (len(live) * 4) // 5)
+        ops += ["R %d" % k for k in gone]
+        ops += ["H", "E"]
+        ops += ["F %d" % k for k in rng.sample(keys, min(len(keys), 400))]
+        ops += ["A %d 5" % k for k in gone[:40]] + ["E", "C", "S"]
+        return Case(cid, "0", ops, "growth-%dkeys-enum-on-demand" % nkeys)
 
     def gen(self, tier, seed):
         rng = random.Random(seed)
@@ -126,6 +154,7 @@ class C18set(vlib.HistoryProp):
                      (list(range(40)) + BIG, 400, 25, True, False), (list(range(200)), 700, 4, True, False),
                      (list(range(1500)), 4000, 1, False, True)]
             shr = [(20, 40), (60, 10), (200, 2)]
+            grow = [(400, 2), (1500, 1)]
         else:
             self.exhaustive(mut, 6, "x", ex)
             self.exhaustive(mut2, 4, "y", ex)
@@ -133,6 +162,7 @@ class C18set(vlib.HistoryProp):
                      (list(range(40)) + BIG, 400, 1500, True, False), (list(range(200)), 1000, 60, True, False),
                      (list(range(1500)) + BIG, 10000, 6, False, True), (list(range(6000)), 10000, 3, False, False)]
             shr = [(20, 2000), (60, 300), (200, 30), (700, 3)]
+            grow = [(400, 40), (1500, 10), (3000, 4), (6000, 2)]
         cases += ex
         # the exhaustive set histories again through con::map (quick: all, thorough: up to length 5)
         kmap = 0
@@ -151,6 +181,10 @@ class C18set(vlib.HistoryProp):
         for nk, cnt in shr:
             for _ in range(cnt):
                 cases.append(self.shrink_walk(rng, nk, "h%d" % k))
+                k += 1
+        for nk, cnt in grow:
+            for _ in range(cnt):
+                cases.append(self.grow_walk(rng, nk, "g%d" % k))
                 k += 1
         return cases
 
